@@ -121,6 +121,8 @@ pub fn gen(prop: &str, seed: u64, index: u64, tier: Tier) -> Case {
         // now and then more results than any queue holds
         o.wide = true;
     }
+    // a symlinked directory: the same file under two spellings that only the OS can equate
+    o.symlinks = true;
     let mut project = gen::gen_graph_project(&mut rng, &o, n, &edges);
     if prop == "C03" && !swept && rng.chance(1, 10) {
         // a failing file: the run must still terminate, whatever is in flight when it fails
@@ -132,7 +134,8 @@ pub fn gen(prop: &str, seed: u64, index: u64, tier: Tier) -> Case {
     }
     let a = analyze(&project);
     let mut crng = rng_for(seed, prop, pi, "config");
-    let (inputs, recursive) = gen::gen_inputs(&mut crng, &a, prop == "C03");
+    let has_link = project.entries.iter().any(|e| matches!(e, Entry::Symlink { .. }));
+    let (inputs, recursive) = gen::gen_inputs_l(&mut crng, &a, prop == "C03", has_link);
     let mode = if crng.chance(1, 4) {
         ModeS::Needed
     } else {
